@@ -265,3 +265,50 @@ def default_search_rule(ctx, run, dfi):
     if degenerate:
         run.fail(Finding("C06.R2", dfi.qualname, "degenerate bracket for a constant sample", degenerate + ": cash() raises ValueError although the certainty equivalent of a constant sample is that constant",
                          file=str(prog.modules[dfi.module].path), line=dfi.node.lineno, witness="IsoelasticLoss(0.5).cash(torch.full((10,), 1.3)) raises ValueError"))
+
+
+def target_rule(ctx, run):
+    """R1 (target): every closed-form cash(input, target) is the cash amount of the P&L input - target: as a term over the generic element,
+    cash(x, target) == cash(x, 0) with x replaced by x - target (ERM, ES, EntropicLoss, QuadraticCVaR)."""
+    prog = ctx.prog
+    run.require("C06.R1t", 4)
+    x, t_ = W.tensor("x"), W.tensor("target")
+    for cls, attrs in (("EntropicRiskMeasure", dict(a=W.fl("a"))), ("ExpectedShortfall", dict(p=W.fl("p"))), ("EntropicLoss", dict(a=W.fl("a"))), ("QuadraticCVaR", dict(lam=W.fl("lam")))):
+        cfi, with_t = term_of(ctx, cls, "cash", attrs, [x, t_])
+        _, without = term_of(ctx, cls, "cash", attrs, [x, 0.0])
+        ok, detail = True, ""
+        if cls == "QuadraticCVaR":
+            # the value is an implicit minimiser: compare the argument handed to the functional
+            def arg_of(res):
+                calls = [e for r in res for e in r["events"] if e["kind"] == "call" and e["callee"] == E.F + "quadratic_cvar"]
+                return calls[0]["args"][0] if calls and calls[0]["args"] else (calls[0]["kwargs"].get("input") if calls else None)
+            A = SampleAlgebra()
+            try:
+                a1, a0 = A.conv(arg_of(with_t)), A.conv(arg_of(without))
+                ok = sp.simplify(a1 - a0.subs(xi, xi - A.sym("target"))) == 0
+                detail = f"quadratic_cvar is evaluated on {a1}"
+            except (TypeError, NotImplementedError, AttributeError) as ex:
+                ok, detail = False, f"argument of quadratic_cvar not analysable ({ex})"
+        else:
+            A = SampleAlgebra(assume_positive={"a", "p"})
+            try:
+                e1 = linearize(A.conv(with_t[0]["value"]))
+                e0 = linearize(A.conv(without[0]["value"]))
+                want = linearize(sp.expand(e0.subs(xi, xi - A.sym("target"))))
+                e1 = linearize(sp.expand(e1))
+                ok = sp.simplify(sp.expand_log(sp.expand(e1) - sp.expand(want), force=True)) == 0
+                detail = f"cash(x, target) = {e1}"
+            except (TypeError, NotImplementedError) as ex:
+                ok, detail = False, f"not analysable ({ex})"
+        run.oblige("C06.R1t", f"{cls}.cash(input, target) == cash(input - target)", ok, detail)
+        if not ok:
+            run.fail(Finding("C06.R1t", cfi.qualname, detail[:300], "the target must be subtracted from the input before the cash amount is computed",
+                             file=str(prog.modules[cfi.module].path), line=cfi.node.lineno))
+
+
+_check_before_target = check
+
+
+def check(ctx, run):  # noqa: F811
+    _check_before_target(ctx, run)
+    target_rule(ctx, run)
